@@ -30,7 +30,7 @@ KIND_EXC = {"multi": "FileProvidedByMultipleTargetsError", "unresolved": "Unreso
 RECURSION_FRAMES = {"visitor", "_schedule", "_cached_schedule", "_visit", "dfs_inner", "check_for_circular_dependencies", "inner", "wrapper"}
 
 
-QUICK_BUDGET = {"cases": 4000, "deadline_s": 100, "case_timeout_s": 150, "floors": {"lib_decisions": 3000, "cli_commands": 300, "size_runs": 12}}
+QUICK_BUDGET = {"cases": 4000, "deadline_s": 170, "case_timeout_s": 150, "floors": {"lib_decisions": 1312, "cli_commands": 300, "size_runs": 12}}
 THOROUGH_FACTOR = 10  # thorough = the same workload with 10x the cases (floors scale along)
 
 
